@@ -150,6 +150,7 @@ def run_history(case, root, ID, ls_after_each=False):
                 mstore.files[op["path"]] = {"ir": op["ir"]}
                 probes["store_changed_mid_session"] = 1
                 kinds_seq.append("putfile")
+                prev = None       # the cause of a failure may be gone
                 continue
             if kind == "rmfile":
                 import os as _os
@@ -160,6 +161,7 @@ def run_history(case, root, ID, ls_after_each=False):
                 mstore.files.pop(op["path"], None)
                 probes["store_changed_mid_session"] = 1
                 kinds_seq.append("rmfile")
+                prev = None       # a repeated command may fail differently
                 continue
             inst = op.get("inst", "A")
             if inst not in machines:
